@@ -419,7 +419,7 @@ CONFIG['C02'] = _resize_cfg(
     ["shuffle masks, lane placement and load widths are modelled and proved for every SIMD convolution kernel of U8x4 and the vertical kernels of all 8-bit types (U8x4 SSE4.1 horizontal pass: "
      "u8x4_sse4_one_row_eq_portable, u8x4_sse4_four_rows_eq_portable, masks re-extracted from the source; SSE4.1 vertical pass of all 8-bit "
      "types: vert_u8_sse4_chunk32/8/4_eq_portable, its AVX2 twin, the AVX2 four-row U8x4 kernel by reduction to the 128-bit halves, the AVX2 one-row kernel u8x4_avx2_one_row_eq_portable; call sequences pinned, the lane models also executed against the real kernels); for all "
-     "other kernels (the SSE4.1 vertical pass of the 16-bit types is proved as well: vert_u16_sse4_chunk16/8/4_eq_portable, AVX2 twin by halves; not modelled: horizontal 16-bit kernels, float, the remaining horizontal kernels of U8 / U8x2 / U8x3 - both SSE4.1 kernels of U8x3 are proved too, incl. their width-dependent loop exits -, alpha kernels) they are tied by "
+     "other kernels (the SSE4.1 vertical pass of the 16-bit types is proved as well: vert_u16_sse4_chunk16/8/4_eq_portable, AVX2 twin by halves; not modelled: horizontal 16-bit kernels, float, the remaining horizontal kernels of U8 / U8x2 / U8x3 - the SSE4.1 kernels of U8 and of U8x3 are proved too, the latter incl. their width-dependent loop exits -, alpha kernels) they are tied by "
      "correspondence only; NEON and WASM kernels cannot be executed here",
      "float formats: reassoc_err bounds the difference of two summation orders by (gamma(d)+gamma(d'))*sum|x k| under the standard rounding "
      "model (premise); the oracle applies a tolerance of a few f32 ulps",
